@@ -9,8 +9,7 @@ RULE = ("TLC generates primitives, boundaries, transforms (translations, six rat
 
 def run(ctx):
     if ctx.replay:
-        scen = [json.load(open(ctx.replay))["trace"]["scenario"]]
-        scen[0].pop("tid", None)
+        scen = ctx.replay_scenarios()
     else:
         scen = ctx.gen("Gen_Attr", "Gen_Attr_all", timeout=900)
         seen, out = set(), []
